@@ -17,7 +17,10 @@ switch points (nothing in /repo is touched; everything is instance-level instrum
     * the fake connection objects (the keys of the inner dicts) have a __hash__ that is a switch point: the switch happens
       after the code decided to operate on the inner dict and before the in-place operation takes effect (CPython hashes
       the key first); for a copy-on-write variant this is exactly between `copy` and `store back`
-    * every next() of the items() iterator in handle is a switch point; what the iterator yields is recorded
+    * items() of an inner dict (handle takes its snapshot with list(subscriptions.items())) is a switch point and an event
+      carrying the content of the dict at that moment; the REAL items view is returned, so a handle that iterates the live
+      dict instead of a snapshot behaves as CPython makes it behave (RuntimeError when the size changes)
+    * every send_reply of a fake connection (one per delivered log message) is a switch point and an event
 one event is recorded immediately after each dict operation took effect (no switch point in between), so the global event
 list is the order in which the atomic operations happened.
 """
@@ -62,6 +65,7 @@ class Ctx:
         self.mods = set(mods)
         self.events = []
         self.on = False
+        self.clock = 0            # advances at every switch point and event: orders operation / emission boundaries
 
     def tid(self):
         t = self.s.current
@@ -71,10 +75,12 @@ class Ctx:
 
     def point(self, label):
         if self.on:
+            self.clock += 1
             self.s.switch(label)
 
     def event(self, *ev):
         if self.on:
+            self.clock += 1
             e = [self.tid()] + list(ev)
             self.events.append(e)
             return e
@@ -103,29 +109,6 @@ def _cid(c):
 
 
 def make_classes(ctx):
-    class RecIter:
-        """iterator over the items of an inner dict: next() is a switch point, the yielded item is recorded"""
-
-        def __init__(self, d):
-            self.d = d
-            self.it = iter(dict.items(d))
-
-        def __iter__(self):
-            return self
-
-        def __next__(self):
-            ctx.point('iter:' + self.d.mod)
-            try:
-                c, lev = next(self.it)
-            except StopIteration:
-                ctx.event('end', self.d.mod, False, None)
-                raise
-            except Exception as e:
-                ctx.event('end', self.d.mod, True, type(e).__name__)
-                raise
-            ctx.event('next', self.d.mod, _cid(c), _lev(lev), [])
-            return c, lev
-
     class RecInner(dict):
         """the per-module dict {conn: level}; the switch point of its operations is the __hash__ of the key"""
         mod = '?'
@@ -140,7 +123,9 @@ def make_classes(ctx):
             ctx.event('set', self.mod, _cid(key), _lev(value))
 
         def items(self):
-            return RecIter(self)
+            ctx.point('items:' + self.mod)
+            ctx.event('snap', self.mod, [[_cid(c), _lev(v)] for c, v in dict.items(self)])
+            return dict.items(self)
 
         # anything else the real code does not do: recorded as an event the model does not know
         def __delitem__(self, key):
@@ -288,20 +273,15 @@ def make_classes(ctx):
             return self is other
 
         def send_reply(self, msg):
+            ctx.point('send:c%d' % self.i)
             self.got.append(msg)
             if ctx.on:
-                tid = ctx.tid()
                 try:
                     action, spec, data = msg
                     modname, _, lev = spec.partition(':')
-                    item = [self.i, action, modname, lev, json.loads(json.dumps(data, default=repr))]
+                    ctx.event('send', self.i, action, modname, lev, json.loads(json.dumps(data, default=repr)))
                 except Exception:
-                    item = [self.i, '?', repr(msg), '', None]
-                last = ctx.last_of(tid)
-                if last is not None and last[1] == 'next':
-                    last[5].append(item)
-                else:
-                    ctx.event('bad', 'stray-send', item)
+                    ctx.event('bad', 'send', repr(msg))
 
     return RecOuter, RecLock, CConn
 
@@ -337,14 +317,17 @@ def run_conc(case, build_node, exec_op, collect):
     results = [[] for _ in range(nthreads)]
 
     def body(k, th):
+        # t0 / t1: clock when the operation started / had returned
         if 'conn' in th:
             for j, op in enumerate(th['ops']):
+                t0 = ctx.clock
                 exc, reply, _ = exec_op(disp, conns, mods, op, 1000 * (k + 1) + j)
-                results[k].append({'exc': exc, 'reply': reply})
+                results[k].append({'exc': exc, 'reply': reply, 't0': t0, 't1': ctx.clock})
         else:
             for j, (m, lv) in enumerate(th['emit']):
+                t0 = ctx.clock
                 exc, _, pyname = exec_op(disp, conns, mods, ['emit', m, lv], 1000 * (k + 1) + j)
-                results[k].append({'exc': exc, 'pyname': pyname})
+                results[k].append({'exc': exc, 'pyname': pyname, 't0': t0, 't1': ctx.clock})
 
     def main():
         ts = [s.spawn(body, 't%d' % k, k, th) for k, th in enumerate(case['threads'])]
